@@ -42,11 +42,51 @@ def run(ctx, rep):
     if r is not None:
         parent, cls = r
         check_passthrough(fx, rep, cls)
+        check_instruction_wrappers(fx, rep, cls)
     import c29
     c29.check_instruction(fx, _Rename(rep, 'R2-instruction-wrapper'))
     check_purity(ctx, rep)
     check_justification(fx, rep)
     rep.assume('an inspector that rewrites inputs or outcomes is by definition not "observing"; the wrappers faithfully forward whatever the hook returns')
+
+
+def check_instruction_wrappers(fx, rep, cls):
+    """the LOG / SELFDESTRUCT wrappers installed with update_boxed: on EVERY path the wrapped
+    instruction runs exactly once, with the wrapper's own interpreter and host, and before any
+    inspector hook is consulted (an early return in front of it would skip the instruction whenever
+    an inspector is attached)."""
+    n = 0
+    for c in cls:
+        if c.role not in ('log', 'selfdestruct'):
+            continue
+        rep.fn(c.fn)
+        paths = c.run(fx)
+        if paths is None:
+            rep.undecided('R2-instruction-wrapper', c.role + ':prev-once', 'path budget', c.fn.where())
+            continue
+        n += 1
+        bad = None
+        for p in paths:
+            tk = insp.tokens(p)
+            prevs = [i for i, t in enumerate(tk) if t[0] == 'prev']
+            hooks = [i for i, t in enumerate(tk) if t[0] == 'insp']
+            if len(prevs) != 1:
+                bad = 'the wrapped instruction runs %d times on a path' % len(prevs)
+                break
+            if hooks and hooks[0] < prevs[0]:
+                bad = 'an inspector hook is called before the wrapped instruction ran'
+                break
+            args = tk[prevs[0]][2]
+            txt = render(args[1]) if len(args) > 1 else ''
+            if 'arg' not in txt:
+                bad = 'the wrapped instruction is called with %s' % txt[:60]
+                break
+        if bad:
+            rep.violation('R2-instruction-wrapper', c.role + ':prev-once', 'the %s wrapper: %s' % (c.role.upper(), bad), c.fn.where())
+        else:
+            rep.ok('R2-instruction-wrapper', c.role + ':prev-once', 'wrapped instruction runs exactly once on %d paths' % len(paths))
+    if n < 2:
+        rep.violation('R2-instruction-wrapper', 'wrappers-found', 'only %d of the LOG / SELFDESTRUCT wrappers were recognised' % n)
 
 
 class _Rename:
